@@ -144,7 +144,8 @@ class Gen:
         r = self.rng
         k = r.random()
         if depth <= 0 or k < 0.45:
-            return ["cmp", r.choice(["eq", "ne", "lt", "le", "gt", "ge"]), self.expr(cols, 1, bool(cols)), self.expr(cols, 1)]
+            kind = "cmpr" if (self.itonly_p and r.random() < 0.25 * self.itonly_p) else "cmp"
+            return [kind, r.choice(["eq", "ne", "lt", "le", "gt", "ge"]), self.expr(cols, 1, bool(cols)), self.expr(cols, 1)]
         if k < 0.6:
             n = r.choice([0, 1, 2, 2, 3])
             return [r.choice(["and", "or"])] + [self._pred(cols, depth - 1) for _ in range(n)]
@@ -532,6 +533,9 @@ class Gen:
         finally:
             self.flags_p = saved
             self.force_last = False
+        if "diag" in self.weights and r.random() < 0.6:
+            self.ops.append({"k": "diag", "t": len(self.pool) - 1, "ex": r.choice(["real", "real", "truth"])})
+            return
         self.ops.append({"k": r.choice(["run", "process"]), "t": len(self.pool) - 1})
         if self.ops[-1]["k"] == "process":
             self.pool.append(self.pool[-1].copy())
@@ -1041,6 +1045,8 @@ class Gen:
                                      "p": ["cmp", "gt", ["udfu", "itonly", ["ref", sorted(tgt.cols)[0]]], ["lit", 0]]})
                     self.pool.append(tgt.copy())
                 base["p"] = ["cmp", "gt", ["udf", "itonly", ["ref", sorted(tgt.cols)[0]]], ["lit", 0]]
+                if r.random() < 0.35:
+                    base["p"] = ["cmpr", r.choice(["lt", "ge", "eq"]), ["ref", sorted(tgt.cols)[0]], ["lit", 0]]
                 if base.get("pe") not in (None, "sql"):
                     if r.random() < 0.5:
                         base.pop("pe")
